@@ -85,6 +85,10 @@ def leaf(profile='plain'):
         st.just(Ellipsis).map(enc),
         st.complex_numbers(allow_nan=False, allow_infinity=False, max_magnitude=1e6).map(enc),
     )
+  if profile == 'any_enum':  # 'any' plus members of a nested enum and of a same-named top-level enum
+    return st.one_of(leaf('any'), leaf('any'), st.sampled_from([
+        {'$sym': 'things:Outer.Mode.FAST'}, {'$sym': 'things:Outer.Mode.SLOW'},
+        {'$sym': 'things:Mode.FAST'}, {'$sym': 'things:Mode.SLOW'}]))
   if profile == 'nan_free':
     return st.one_of(
         _small_int, st.integers().map(enc), _ident_str, st.text(max_size=6).map(enc),
